@@ -1,7 +1,12 @@
-/- all property theorems (one file per property under AJ/Props/) -/
+/- all property theorems (one file per property under AJ/Props/; generated) -/
+import AJ.Props.C01
+import AJ.Props.C02
+import AJ.Props.C07
+import AJ.Props.C12
+import AJ.Props.C14
+import AJ.Props.C15
 import AJ.Props.C16
 import AJ.Props.C17
 import AJ.Props.C18
 import AJ.Props.C19
-import AJ.Props.C15
 import AJ.Props.C20
